@@ -35,6 +35,8 @@ def _narrowing(frm, to):
 
 def _integral_guard(body, c):
     from r_panic import bool_source, edge_dominates, switch_edges
+    from analysis import defuse, trace_operand, single_origin
+    from facts import op_local
     for sb in sorted(body.live_blocks):
         t = body.blocks[sb]['term']
         if t['k'] != 'switch':
@@ -43,12 +45,36 @@ def _integral_guard(body, c):
         if src is None:
             continue
         tc, parity = src
-        if (tc.rdef or tc.callee) in INTEGRAL_TESTS:
+        if (tc.rdef or tc.callee) == 'rust_decimal::Decimal::is_zero' and tc.args:
+            fo = single_origin(trace_operand(body, tc.args[0], through_calls=set(['std::ops::Deref::deref'])))
+            if fo is not None and fo.kind == 'callres' and (fo.data.callee or '').endswith('Decimal::fract'):
+                tc_ok = True
+            else:
+                tc_ok = False
+        else:
+            tc_ok = (tc.rdef or tc.callee) in INTEGRAL_TESTS
+        if tc_ok:
             listed = [v for v, _ in t['targets']]
             for v, tb in switch_edges(body, sb):
                 tv = (1 if listed == [0] else 0 if listed == [1] else None) if v == 'otherwise' else (1 if v != 0 else 0)
                 if tv is not None and (tv ^ parity) == 1 and edge_dominates(body, sb, tb, c.bb):
                     return True
+    # `x.scale() == 0` on the true edge
+    du = defuse(body)
+    for sb in sorted(body.live_blocks):
+        t = body.blocks[sb]['term']
+        if t['k'] != 'switch':
+            continue
+        l = op_local(t['discr'])
+        defs = du.defs.get(l, []) if l is not None else []
+        if len(defs) == 1 and defs[0][2] == 'assign' and defs[0][3]['k'] == 'binop' and defs[0][3]['op'] == 'Eq' and op_const_int(defs[0][3]['b']) == 0:
+            ao = single_origin(trace_operand(body, defs[0][3]['a'], through_calls=set()))
+            if ao is not None and ao.kind == 'callres' and (ao.data.callee or '').endswith('Decimal::scale'):
+                listed = [v for v, _ in t['targets']]
+                for v, tb in switch_edges(body, sb):
+                    tv = (1 if listed == [0] else 0 if listed == [1] else None) if v == 'otherwise' else (1 if v != 0 else 0)
+                    if tv == 1 and edge_dominates(body, sb, tb, c.bb):
+                        return True
     return False
 
 
